@@ -892,3 +892,30 @@ Proof.
   revert k; induction l as [|x l IH]; intros [|k] H; cbn in *; try lia; auto.
   f_equal. apply IH. lia.
 Qed.
+
+(** boolean test that a step is not a dequeue on condition queue [c] (for the examples) *)
+Definition not_deq_b (c : nat) (y : estep) : bool :=
+  match snd y with
+  | (a, ETick) => match main_of (fst y) a with
+                  | Some (SigDeq c' _) => negb (Nat.eqb c' c)
+                  | _ => true
+                  end
+  | _ => true
+  end.
+
+Lemma not_deq_b_sound c x y : not_deq_b c y = true -> ~ is_deq c x y.
+Proof.
+  unfold not_deq_b. intros H (a & k & r & E1 & E2 & _). rewrite E1, E2 in H.
+  rewrite Nat.eqb_refl in H. discriminate.
+Qed.
+
+Lemma Forall_not_deq c x l : forallb (not_deq_b c) l = true -> Forall (fun y => ~ is_deq c x y) l.
+Proof.
+  intros H. apply Forall_forall. intros y Hy. apply (not_deq_b_sound c x).
+  rewrite forallb_forall in H. auto.
+Qed.
+
+(** conjunction of closed computations (examples) *)
+Ltac vsplit :=
+  repeat match goal with |- _ /\ _ => split; [vm_compute; reflexivity|] end; vm_compute; reflexivity.
+
